@@ -1,4 +1,5 @@
 import Zstd.Model.FrameDecoder
+import Zstd.Proofs.FrameDecoderContract
 /-
 Helper lemmas for C09: the decode buffer's match copy (`DBuf.repeat`, mirroring
 `DecodeBuffer::repeat` / `repeat_in_chunks` / `repeat_from_dict`) against the RFC semantics
@@ -969,7 +970,14 @@ theorem grows_decompressBlock (content : List Nat) (e : Spec.Entropy) (b : DBuf)
         · rename_i seqs e' _
           exact grows_executeSequences seqs _ _ 0 b
 
-theorem grows_decodeOneBlock (st : FState) (s : Src) : Grows st.buf (decodeOneBlock st s).1.buf := by
+/-- every block decoder satisfying `BlockContract` grows the buffer in the sense of `Grows` -/
+theorem grows_run {σ : Type} [BlockDec σ] [BlockContract σ] (content : List Nat) (e : σ) (b : DBuf) :
+    Grows b (BlockDec.run content e b).1.1 := by
+  obtain ⟨x, hx, -⟩ := BlockContract.appends content e b
+  exact ⟨hx.hashed, hx.window, hx.dict, by rw [hx.size]; omega, BlockContract.counter content e b⟩
+
+theorem grows_decodeOneBlock {σ : Type} [BlockDec σ] [BlockContract σ] (st : FState σ) (s : Src) :
+    Grows st.buf (decodeOneBlock st s).1.buf := by
   unfold decodeOneBlock
   split
   · exact Grows.refl _
@@ -987,7 +995,7 @@ theorem grows_decodeOneBlock (st : FState) (s : Src) : Grows st.buf (decodeOneBl
         · split
           · exact Grows.refl _
           · rename_i content s2 _
-            have := grows_decompressBlock content st.entropy st.buf
+            have := grows_run content st.entropy st.buf
             split <;> rename_i hdb <;> rw [hdb] at this <;> exact this
 
 end Zstd.Proofs.DictCopy
